@@ -10,6 +10,8 @@ pub mod c03;
 pub mod c05;
 pub mod c06;
 pub mod c07;
+pub mod c08;
+pub mod c10;
 pub mod c11;
 pub mod c13;
 pub mod tiny;
@@ -42,6 +44,8 @@ pub fn create(id: &str, tier: Tier, seed: u64, scale: u64) -> Option<Box<dyn Mon
         "C05" => Box::new(c05::C05::new(tier, seed, scale)),
         "C06" => Box::new(c06::C06::new(tier, seed, scale)),
         "C07" => Box::new(c07::C07::new(tier, seed, scale)),
+        "C08" => Box::new(c08::C08::new(tier, seed, scale)),
+        "C10" => Box::new(c10::C10::new(tier, seed, scale)),
         "C11" => Box::new(c11::C11::new(tier, seed, scale)),
         "C13" => Box::new(c13::C13::new(tier, seed, scale)),
         _ => return None,
